@@ -909,6 +909,11 @@ def run_C14(ctx: Ctx) -> Result:
     res = Result()
     docs = streams.corpus_docs() + streams.doc_mix(ctx.rng, ctx.n(2000, 20000), noisy=0.5, mutated=0.4)
     docs += ["   # language: xx\nFeature: f\n", "@a b\nFeature: f\n", "Feature: f\n  Scenario: s\n    Given a\n      | a |\n      | a | b |\n"]
+    # the same error met several times with other errors in between (look-ahead, then the main loop)
+    for tail in ("  Scenario: n\n", "  Rule: r\n", "    Examples:\n      | a |\n", ""):
+        for bad in ("  @bad tag\n", "  @ok @a b\n", "  @t\n  @bad tag\n  # c\n  @bad tag\n"):
+            docs.append("Feature: f\n  Scenario Outline: s\n    Given a\n      | a |\n      | b | c |\n  @t\n" + bad + tail)
+            docs.append("Feature: f\n  Scenario: s\n    Given a\n  @t\n" + bad + "\n" + bad + tail)
     res.merge(streams.parse_stream(docs, proj_errors, modes=(False, True), nontrivial=lambda i: "errors" in i))
     # direct oracles: stop-mode error == first collected error; message prefix; de-duplication; cap
     for src in docs:
@@ -1627,9 +1632,9 @@ GEN_RULE = ("cases are documents from the acceptance corpus, a structured mostly
             "Unicode), line mutations of those, and noisy line soup; distinct = distinct canonical input; ")
 
 PROPS = {
-    "C01": dict(modules=["C01", "C01Linear"], run=run_C01, translators=["parser_table", "dialects"],
+    "C01": dict(modules=["C01", "C01Linear", "C01NoCrash"], run=run_C01, translators=["parser_table", "dialects"],
                 rule=GEN_RULE + "plus Unicode soup with surrogates/NUL and all strings ≤ L over a 10-symbol alphabet; non-trivial = any input"),
-    "C02": dict(modules=["C02", "C02Tree", "C02Siblings"], run=run_C02, translators=["parser_table", "grammar", "siblings"], exhaustive=True,
+    "C02": dict(modules=["C02", "C02Tree", "C02Text", "C02Siblings"], run=run_C02, translators=["parser_table", "grammar", "siblings"], exhaustive=True,
                 rule="all line-kind sequences up to length L through the real Parser (stub matcher) vs the grammar reading (Spec.Sentence) and the table model's events; sampled longer ones; real-text documents; non-trivial = accepted"),
     "C03": dict(modules=["C03", "C03Tree"], run=run_C03, translators=["parser_table", "dialects"], rule=GEN_RULE + "non-trivial = accepted document"),
     "C04": dict(modules=["C04"], run=run_C04, translators=["parser_table", "dialects"], rule=GEN_RULE + "plus all rows/tag lines ≤ L over the distinguishing classes; non-trivial = any"),
